@@ -15,11 +15,18 @@
   [ts, "Plugin"|"Recompute", session id | tag].  Honours "queue" (default canonical).
   Optional field "prior": a complete request of its own (an earlier simulation whose queue / network /
   scheduler objects the caller re-uses): it is answered independently, under "prior" of the answer.
+  "resume" may also be a LIST of schedulers (a run interrupted several times): `run()` is called again from the state
+  the last abort left, with the next scheduler of the list, as long as the previous call raised; the answer describes
+  the last call and carries the aborted calls under "first" (the first one) and "aborted" (all of them, in order).
+  A request that consists of {"sorted": <request of AcnModel/WireSortedRd.lean>, optionally "prior": {"sorted": …}}:
+  the whole simulation with the MODELLED sorted algorithm / round robin / uncontrolled baseline as the scheduler
+  (`SimSorted`, `SimSortedRd`: C07's composition model); the answer is {"sorted": <that run in the jResult format>}.
 -/
 import AcnModel.WireSim
 import AcnModel.SimQ
 import AcnModel.SimStep
 import AcnModel.SimAssemble
+import AcnModel.WireSortedRd
 open Lean Acn Acn.Wire Acn.EventCore Acn.Sim
 
 def jStepResult (r : Except StepErr Bool × Nat) : Json :=
@@ -71,6 +78,18 @@ def handleOne (j : Json) : Except String Json := do
   let r := runIt sched (if heap then Sim.initQ heapQ cfg else Sim.init cfg)
   match j.getObjVal? "resume" with
   | .error _ => pure (jResult cfg r)
+  | .ok (Json.arr a) =>
+    -- a run interrupted several times: one scheduler per further `run()` call, used while the last call raised
+    let scheds ← a.toList.mapM parseSched
+    let (r2, aborted) := scheds.foldl (fun (acc : (Sim.State Float × Option Err) × List (Sim.State Float × Option Err)) sch =>
+        match acc.1.2 with
+        | none => acc
+        | some _ => (runIt sch acc.1.1, acc.2 ++ [acc.1])) (r, [])
+    match aborted with
+    | [] => pure (jResult cfg r2)
+    | f :: _ =>
+      pure (((jResult cfg r2).setObjVal! "first" (jResult cfg f)).setObjVal! "aborted"
+        (Json.arr (aborted.map (jResult cfg)).toArray))
   | .ok rj =>
     match r.2 with
     | none => pure (jResult cfg r)
@@ -79,7 +98,22 @@ def handleOne (j : Json) : Except String Json := do
       let r2 := runIt sched2 r.1
       pure ((jResult cfg r2).setObjVal! "first" (jResult cfg r))
 
+/-- the composition model of C07 (modelled algorithm inside the simulator model) -/
+def handleSorted (v : Json) : Except String Json := do
+  let a ← Acn.WireSortedRd.handle v
+  pure ((a.getObjVal? "simrun").toOption.getD Json.null)
+
 def handle (j : Json) : Except String Json := do
+  match j.getObjVal? "sorted" with
+  | .ok v =>
+    let r := Json.mkObj [("sorted", ← handleSorted v)]
+    match j.getObjVal? "prior" with
+    | .ok pj =>
+      match pj.getObjVal? "sorted" with
+      | .ok pv => pure (r.setObjVal! "prior" (Json.mkObj [("sorted", ← handleSorted pv)]))
+      | .error _ => pure r
+    | .error _ => pure r
+  | .error _ =>
   let r ← handleOne j
   match j.getObjVal? "prior" with
   | .ok pj => pure (r.setObjVal! "prior" (← handleOne pj))
